@@ -215,6 +215,60 @@ fn opt_opt_value(c: &mut Cur) -> Option<Option<Option<DataValue>>> {
     })
 }
 
+/// n x (pathflag [path] fields vflag [value] tflag [value]) -> the EntryUpdates and the path each one names
+pub fn parse_v1_updates(
+    c: &mut Cur,
+    n: Tok,
+    cts: &Option<prost_types::Timestamp>,
+) -> Option<(Vec<p1::EntryUpdate>, Vec<Option<String>>)> {
+    let mut updates = Vec::new();
+    let mut paths: Vec<Option<String>> = Vec::new();
+    for _ in 0..n {
+        let pf = c.next()?;
+        let path = if pf == 0 { None } else { Some(c.string()?) };
+        let fields = c.next()?;
+        let v = opt_opt_value(c)?;
+        let t = opt_opt_value(c)?;
+        let mk = |x: Option<DataValue>| p1::Datapoint {
+            timestamp: cts.clone(),
+            value: x.as_ref().and_then(v1_value),
+        };
+        let mut fl = Vec::new();
+        if fields & 1 != 0 {
+            fl.push(p1::Field::Value as i32);
+        }
+        if fields & 2 != 0 {
+            fl.push(p1::Field::ActuatorTarget as i32);
+        }
+        paths.push(path.clone());
+        updates.push(p1::EntryUpdate {
+            entry: path.map(|path| p1::DataEntry {
+                path,
+                value: v.map(mk),
+                actuator_target: t.map(mk),
+                metadata: None,
+            }),
+            fields: fl,
+        });
+    }
+    Some((updates, paths))
+}
+
+/// the client-side timestamp the handler-level writes of this operation carry (every second operation)
+pub fn client_ts(w: &World) -> Option<prost_types::Timestamp> {
+    // mostly the year 2001; now and then a time no calendar library can print (9e12 s after / before the epoch still
+    // fits a SystemTime) or the year 10000: whatever the broker does with a client's timestamp, it has to go on
+    // answering every reader of that signal
+    let n = w.windows.len() as i64;
+    match w.windows.len() % 12 {
+        2 => Some(prost_types::Timestamp { seconds: 9_000_000_000_000 + n, nanos: 1 }),
+        6 => Some(prost_types::Timestamp { seconds: -9_000_000_000_000 - n, nanos: 999_999_999 }),
+        10 => Some(prost_types::Timestamp { seconds: 253_402_300_800 + n, nanos: 0 }),
+        k if k % 2 == 0 => Some(prost_types::Timestamp { seconds: 1_000_000_000 + n, nanos: 123_000_000 }),
+        _ => None,
+    }
+}
+
 pub async fn step_api(w: &mut World, op: Tok, c: &mut Cur<'_>, start: SystemTime) -> Vec<Vec<Tok>> {
     let bad = vec![vec![-1]];
     let Some(p) = c.next() else { return bad };
@@ -222,11 +276,7 @@ pub async fn step_api(w: &mut World, op: Tok, c: &mut Cur<'_>, start: SystemTime
     let b = w.broker.clone();
     // every second operation sends its datapoints with a client-side ("source") timestamp from the year 2001: the
     // broker keeps it aside and must go on reporting the time at which IT received the value
-    let cts: Option<prost_types_ts::Timestamp> = if w.windows.len() % 2 == 0 {
-        Some(prost_types_ts::Timestamp { seconds: 1_000_000_000 + w.windows.len() as i64, nanos: 123_000_000 })
-    } else {
-        None
-    };
+    let cts = client_ts(w);
     match op {
         20 => {
             let (Some(view), Some(path)) = (c.next(), c.string()) else { return bad };
@@ -308,35 +358,7 @@ pub async fn step_api(w: &mut World, op: Tok, c: &mut Cur<'_>, start: SystemTime
         }
         21 => {
             let Some(n) = c.next() else { return bad };
-            let mut updates = Vec::new();
-            let mut paths: Vec<Option<String>> = Vec::new();
-            for _ in 0..n {
-                let Some(pf) = c.next() else { return bad };
-                let path = if pf == 0 { None } else { Some(match c.string() { Some(s) => s, None => return bad }) };
-                let Some(fields) = c.next() else { return bad };
-                let (Some(v), Some(t)) = (opt_opt_value(c), opt_opt_value(c)) else { return bad };
-                let mk = |x: Option<DataValue>| p1::Datapoint {
-                    timestamp: cts.clone(),
-                    value: x.as_ref().and_then(v1_value),
-                };
-                let mut fl = Vec::new();
-                if fields & 1 != 0 {
-                    fl.push(p1::Field::Value as i32);
-                }
-                if fields & 2 != 0 {
-                    fl.push(p1::Field::ActuatorTarget as i32);
-                }
-                paths.push(path.clone());
-                updates.push(p1::EntryUpdate {
-                    entry: path.map(|path| p1::DataEntry {
-                        path,
-                        value: v.map(mk),
-                        actuator_target: t.map(mk),
-                        metadata: None,
-                    }),
-                    fields: fl,
-                });
-            }
+            let Some((updates, paths)) = parse_v1_updates(c, n, &cts) else { return bad };
             let r = p1::val_server::Val::set(&b, req(p1::SetRequest { updates }, Some(&perms))).await;
             match r {
                 Err(s) => status(&s),
@@ -775,7 +797,7 @@ fn v2_to_core(entries: Vec<(i32, p2::Datapoint)>) -> databroker::broker::EntryUp
     databroker::broker::EntryUpdates { updates }
 }
 
-async fn block_id(w: &World, path: &str) -> Tok {
+pub async fn block_id(w: &World, path: &str) -> Tok {
     let all = all();
     match w.broker.authorized_access(&all).get_id_by_path(path).await {
         Some(id) => id as Tok,
